@@ -1,5 +1,5 @@
 SPECIFICATION MCSpec
 CONSTANTS MaxLen = 8
-INVARIANTS Total Agree OrderPreserved Structured RenderMatchesParse PrefixOrder Emit
+INVARIANTS Total Agree StreamAgrees OrderPreserved Structured RenderMatchesParse PrefixOrder Emit
 PROPERTIES Terminates
 CHECK_DEADLOCK FALSE
